@@ -141,7 +141,8 @@ impl Ord for Value {
             (Value::Bool(l), Value::Bool(r)) => l.cmp(r),
             (Value::DateTime(l), Value::DateTime(r)) => l.cmp(r),
             (Value::Duration(l), Value::Duration(r)) => l.cmp(r),
-            (Value::Obj(l), Value::Obj(r)) => l.cmp(r),
+            (Value::Array(l), Value::Array(r)) => l.cmp(r),
+            (Value::Obj(l), Value::Obj(r)) => l.iter().sorted().cmp(r.iter().sorted()),
             // All these remaining cases aren't directly comparable
             (unrelated_l, unrelated_r) => unrelated_l.rank().cmp(&unrelated_r.rank()),
         }
